@@ -35,7 +35,8 @@ Definition calibrate_reply (card : var -> nat) (t : ctree D) : sx :=
   if wf_tree D card t && pots_ok card t then
     let st := calibrate D card t in
     sx_ok (SL [ of_bool (jt_chk D t);
-                of_bool (sched_chk D t);
+                of_bool (sched_chk D t &&
+                         tree_shape_chk (length (cliques D t)) (tedges D t) (adj D t));
                 of_bool (is_converged D card t st);
                 of_list (fun i => of_tab (table_on D card (clq D t i) (belief D card st i))) (all_cl D t);
                 of_list (fun ke => let '(k, (i, j)) := ke in
